@@ -64,9 +64,51 @@ pub async fn vrf_events<TC: HasRef>(b: &Value, tr: &mut Tracer) {
     }
     // determinism and agreement of the derivation paths, key dependence; structured labels and extreme versions
     let vrf = HardCodedAkdVRF {};
+    let mut long_a = vec![7u8; 1000];
+    long_a[999] = 1;
+    let mut long_b = vec![7u8; 1000];
+    long_b[999] = 2;
     let labels: Vec<(&str, Vec<u8>)> = vec![("empty", vec![]), ("one", vec![0u8]), ("two", vec![0u8, 0u8]), ("long", vec![7u8; 1000]), ("longer", vec![7u8; 1001]),
-        ("ab", b"ab".to_vec()), ("abc", b"abc".to_vec())];
-    let versions: Vec<u64> = vec![1, 2, 255, 256, 1u64 << 32, u64::MAX];
+        ("long_a", long_a), ("long_b", long_b), ("ab", b"ab".to_vec()), ("abc", b"abc".to_vec())];
+    let versions: Vec<u64> = vec![1, 2, 255, 256, 1u64 << 32, (1u64 << 56) + 1, 1u64 << 63, 0x00ff_ffff_ffff_ffff, u64::MAX];
+    // sensitivity: every single-bit change of the version and every single-byte change of the label gives another node label
+    for (lname, lb) in [("short", b"sensitivity".to_vec()), ("long600", (0..600u32).map(|i| (i % 251) as u8).collect::<Vec<u8>>())] {
+        let label = AkdLabel(lb.clone());
+        for base in [1u64, 0x0123_4567_89ab_cdef, u64::MAX] {
+            let n0 = vrf.get_node_label::<TC>(&label, VersionFreshness::Fresh, base).await.unwrap();
+            let mut same = 0;
+            for bit in 0..64 {
+                let n1 = vrf.get_node_label::<TC>(&label, VersionFreshness::Fresh, base ^ (1u64 << bit)).await.unwrap();
+                if n1 == n0 {
+                    same += 1;
+                }
+            }
+            tr.emit(json!({"ev": "vrf_sens", "label": lname, "what": "version_bit", "base": format!("{base}"), "tried": 64, "unchanged": same}));
+        }
+        let n0 = vrf.get_node_label::<TC>(&label, VersionFreshness::Fresh, 1).await.unwrap();
+        let mut same = 0;
+        let mut tried = 0;
+        for pos in (0..lb.len()).step_by(if lb.len() > 64 { 7 } else { 1 }).chain([lb.len() - 1]) {
+            let mut l2 = lb.clone();
+            l2[pos] ^= 0x20;
+            tried += 1;
+            if vrf.get_node_label::<TC>(&AkdLabel(l2), VersionFreshness::Fresh, 1).await.unwrap() == n0 {
+                same += 1;
+            }
+        }
+        // truncation / extension by one byte
+        let mut l3 = lb.clone();
+        l3.pop();
+        let mut l4 = lb.clone();
+        l4.push(0);
+        for l in [l3, l4] {
+            tried += 1;
+            if vrf.get_node_label::<TC>(&AkdLabel(l), VersionFreshness::Fresh, 1).await.unwrap() == n0 {
+                same += 1;
+            }
+        }
+        tr.emit(json!({"ev": "vrf_sens", "label": lname, "what": "label_byte", "base": "1", "tried": tried, "unchanged": same}));
+    }
     let mut seen = std::collections::HashMap::new();
     for (lname, lb) in labels.iter() {
         let label = AkdLabel(lb.clone());
